@@ -103,7 +103,23 @@ impl Scenario for FailStop {
     fn rule(&self) -> String {
         "scenarios = call (header/directory read+write, open full/partial, tile lookup, archive write, re-write of an opened archive with the fault on the output or on the backing reader, read_directories, write_directories) × archive (root-only / leaf spill) × 4 codecs × sync/async × transfer policy; per scenario every fault index k < N (all k if N <= cap, else first cap/2, last cap/4, a stride and a seeded sample) × error kinds {Other, BrokenPipe, PermissionDenied, write returns Ok(0)}; each evaluation = one (scenario, k, kind) execution; distinct = distinct (scenario, k, kind); non-trivial = the fault fired (k < N)".into()
     }
-    fn generate(&self, rng: &mut Rng, tier: Tier, _run: u64) -> Value {
+    fn generate(&self, rng: &mut Rng, tier: Tier, run: u64) -> Value {
+        if run < 32 {
+            // a fixed matrix first, so that these do not depend on seed luck: the small writer calls
+            // x 4 codecs through the async face, once on a stream where every operation (also
+            // seek / flush / close) answers Pending once before it completes, once on a plain one
+            let ic = 1 + (run % 4) as u8;
+            let n_dir = 3 + rng.below(40) as usize;
+            let call = match (run / 4) % 4 {
+                0 => Call::DirWrite { entries: draw_entries(rng, n_dir, false), ic },
+                1 => Call::HeaderWrite { h: valid_header(rng) },
+                2 => Call::Write { a: draw_archive(rng, SizeClass::Tens, ic), scramble: rng.next_u64() },
+                _ => Call::WriteDirs { n: 20 + rng.below(100) as u32, seed: rng.next_u64(), ic, start: Some(8), pos: 127 },
+            };
+            let pend = if run < 16 { Pend { rate: 100, burst: 1, inline: *rng.pick(&[0u8, 100]), ctl: true } } else { Pend::NEVER };
+            let pol = Policy { rd: Xfer::Full, wr: Xfer::Full, pend, seed: rng.next_u64() };
+            return to_value(&FaultCase { call, face: Face::Async, pol, kinds: vec![FKind::Other], cap: if tier == Tier::Quick { 300 } else { 1500 }, only: None, sub_seed: rng.next_u64() });
+        }
         let call = draw_fault_call(rng, tier);
         let face = Face::draw(rng);
         let pol = match rng.below(10) {
